@@ -531,7 +531,7 @@ fn query_all(b: &MBuilt, index: &crai::Index, regions: &[(usize, Option<u64>, Op
 }
 
 /// compares the answers with scan-and-filter; returns (obs, verdict, nontrivial)
-fn judge_queries(
+pub fn judge_queries(
     b: &MBuilt,
     chunks: &[(usize, usize, &[RecSpec])],
     regions: &[(usize, Option<u64>, Option<u64>)],
@@ -932,7 +932,7 @@ pub fn run_hdr(c: &Case) -> Obs {
 }
 
 /// byte ranges the model reads: container headers and slice header blocks
-fn modelled_ranges(bytes: &[u8]) -> Vec<(usize, usize)> {
+pub fn modelled_ranges(bytes: &[u8]) -> Vec<(usize, usize)> {
     let mut out = Vec::new();
     if let Ok((_, conts, _)) = walk_m(bytes) {
         for c in &conts {
